@@ -1,4 +1,5 @@
 //@ fn canonical.rs canonicalize_uri_path
+//@ hideutf8
 //@ props C08 C09 C13 C17
 //@ ret res
 //@ replace 1 `let uri_path = if s3 {` => `let uri_path_cow = if s3 {`
@@ -18,6 +19,7 @@
     let ghost p0 = uri_path.spec_bytes();
     proof {
         lemma_lit_bytes(); broadcast use axiom_str_len_isize;
+        lemma_str_empty(uri_path@);
         if p0 == SLASH() {
             vstd::utf8::encode_utf8_decode_utf8(uri_path@); vstd::utf8::encode_utf8_decode_utf8("/"@);
             assert(uri_path@ == "/"@);
